@@ -26,6 +26,7 @@ Definition rcase := (Z * string * list term * Z * list (list term))%type.
 (** the model is the relation itself: a disagreement is a disagreement with the specification *)
 Definition check_rel (cs : list rcase) : list (Z * Z * Z) :=
   flat_map (fun c => match c with (id, name, args, flag, seen) =>
+     if must_error name args then (if flag =? 2 then [] else [(id, 1, 1)]) else
      match answers name args with
      | None => [(id, 2, 2)]
      | Some ans =>
